@@ -381,20 +381,35 @@ func c08Run(c *core.Ctx) {
 	}
 	c.Set("evaluations", evals.Load())
 	c.Set("distinct_nontrivial", distinct.Load())
+	c08Judge := func(s, d int, in, out uint64) (string, string) {
+		td := dyn.Types[d]
+		return c08Oracle(td.Bits, math.Float64frombits(in), rawToAmp(td.Kind, td.Bits, out))
+	}
+	digests := ctxRun(c, "C08", c08Judge, false, func(s, d int) bool { return dyn.Types[s].Kind == dyn.Float && dyn.Types[d].Kind != dyn.Float })
+	c.Set("ctx_digests", digests)
+	c.Set("evaluations", evals.Load()+c.CtxEvals())
 	c.ReverseOrderPass("mc-shim")
 	c.Set("instantiations", inst)
 	c.Set("instantiations_with_exhaustive_source_domain", exh)
 	c.Set("exhaustive", exh == inst)
-	c.Set("rule", "22 instantiations through the real conversion on real buffers with 1, 2 and 3 channels in blocks (destination pre-filled with garbage), inputs ascending so that 'a larger input never gives a smaller code' is a streaming check; float32 sources: quick = lattice of all 2^20 sign/exponent/top-mantissa patterns x 4 low-mantissa fillers plus the float32-representable alphabet, thorough = every non-NaN float32 bit pattern; float64 sources: the lattice of all sign/exponent/top-8-mantissa patterns x 4 low-mantissa fillers (4.2*10^6 values) and a finite alphabet (+-4 ulp around 0, +-1, +-2^k and 1.5*2^k for k=-70..70, multiples around 256/65536/2^31/2^32/2^63/2^64, +-Inf, MaxFloat, every cell border j/2^(d-1) and j/(2^(d-1)-1) and cell middle for 8/16-bit destinations, boundary borders for wider ones); NaN never generated; exact oracle (128-bit integer product m*FS, no floating point); distinct_nontrivial = values of the primary sequence (distinct by construction)")
+	c.Set("rule", "22 instantiations through the real conversion on real buffers with 1, 2 and 3 channels in blocks (destination pre-filled with garbage), inputs ascending so that 'a larger input never gives a smaller code' is a streaming check; float32 sources: quick = lattice of all 2^20 sign/exponent/top-mantissa patterns x 4 low-mantissa fillers plus the float32-representable alphabet, thorough = every non-NaN float32 bit pattern; float64 sources: the lattice of all sign/exponent/top-8-mantissa patterns x 4 low-mantissa fillers (4.2*10^6 values) and a finite alphabet (+-4 ulp around 0, +-1, +-2^k and 1.5*2^k for k=-70..70, multiples around 256/65536/2^31/2^32/2^63/2^64, +-Inf, MaxFloat, every cell border j/2^(d-1) and j/(2^(d-1)-1) and cell middle for 8/16-bit destinations, boundary borders for wider ones); NaN never generated; plus the context passes (all ordered pairs of 19 special inputs at every lane offset in long buffers with 1-3 channels; a single out-of-range input at each position 0..130 among 200 in-range samples; every ordered pair of instantiations back to back) and the quick sweep again in a fresh process in reverse instantiation order; exact oracle (128-bit integer product m*FS, no floating point); distinct_nontrivial = values of the primary sequence (distinct by construction)")
 	c.Assume("float64 inputs are covered by a finite alphabet only", "out-of-range float->int conversion is implementation-defined in Go; the check observes linux/amd64", "NaN excluded by the property")
 }
 
 func init() {
 	core.Register(&core.Prop{
 		ID: "C08", Level: "exploration", Design: "§5 C08",
-		Run:     c08Run,
-		Worker:  core.SweepWorker,
-		RunCase: func(c *core.Ctx, raw json.RawMessage) []F { return c08EvalCase(decode[c08Case](raw)) },
+		Run:    c08Run,
+		Worker: core.SweepWorker,
+		RunCase: func(c *core.Ctx, raw json.RawMessage) []F {
+			if isCtxCase(raw) {
+				return ctxReplay(c, raw, func(s, d int, in, out uint64) (string, string) {
+					td := dyn.Types[d]
+					return c08Oracle(td.Bits, math.Float64frombits(in), rawToAmp(td.Kind, td.Bits, out))
+				}, false)
+			}
+			return c08EvalCase(decode[c08Case](raw))
+		},
 	})
 }
 
